@@ -76,6 +76,8 @@ def rule_prob_threshold(ctx: Ctx) -> None:
 
 
 def run(ctx: Ctx) -> None:
+    from ..rules import bitform as _bitform
+    _bitform.arm(ctx)
     rule_prob_threshold(ctx)
     from ..rules import memo as _memo
     _memo.rule_memo_sound(ctx, ['graphiq/backends/density_matrix/compiler.py', 'graphiq/backends/stabilizer/compiler.py', 'graphiq/backends/compiler_base.py', 'graphiq/backends/density_matrix/state.py', 'graphiq/backends/stabilizer/state.py', 'graphiq/backends/density_matrix/functions.py'])
@@ -600,6 +602,7 @@ def _swap_first(a: str, b: str):
 
 
 KNOCKOUTS = [
+    Knockout("prim-cnot-x-direction", "graphiq/backends/stabilizer/functions/transformation.py", sub_once("    tableau.table = add_columns(tableau.table, ctrl_qubit, target_qubit)\n", "    tableau.table = add_columns(tableau.table, target_qubit, ctrl_qubit)\n"), "prim.formula", "cnot_gate"),
     Knockout("hook-args-swapped", "graphiq/backends/compiler_base.py", sub_nth("                self.compile_one_gate(\n                    state, op, circuit.n_quantum, q_index, classical_registers\n                )", "                self.compile_one_gate(\n                    op, state, circuit.n_quantum, q_index, classical_registers\n                )", 0), "arg.names-swapped", "swapped"),
     Knockout("forced-outcome-exact-threshold", "graphiq/backends/density_matrix/state.py", sub_once("                if not np.isclose(probs[1], 0.0):", "                if probs[1] > 0:"), "num.prob-threshold", "exact threshold", on_fixed_only=True),
     Knockout("A1-reintroduce-shadow", DM, _swap_first("elif isinstance(op, ops.MeasurementCNOTandReset):", "elif isinstance(op, ops.ClassicalControlledPairOperationBase):"),
